@@ -22,8 +22,8 @@ ASSUMPTIONS = [
     "no ACL, implicit defaults off, add_comments off",
     "if both front ends raise the same exception type for an input they are counted as agreeing (exceptions_agreed)",
 ]
-FLOORS = {"quick": {"pairs_compared": 500, "nonempty_patches": 300, "file_workers_compared": 70},
-          "thorough": {"pairs_compared": 20000, "nonempty_patches": 12000, "file_workers_compared": 70}}
+FLOORS = {"quick": {"pairs_compared": 500, "nonempty_patches": 300, "file_workers_compared": 150, "file_workers_concrete_model": 80},
+          "thorough": {"pairs_compared": 20000, "nonempty_patches": 12000, "file_workers_compared": 150, "file_workers_concrete_model": 80}}
 EXTRA_MODELS = {"huawei": ["Huawei CE6870", "Huawei NE40E-X8", "Huawei Quidway S5300"], "huawei ce": ["Huawei"], "cisco": ["Cisco Catalyst 2960"],
                 "nexus": ["Cisco Nexus 3432"], "asr": ["Cisco XRv"], "iosxr": ["Cisco ASR 9010"]}
 
@@ -169,6 +169,11 @@ def run_files(spec, acc):
     from annet.annlib.diff import gen_pre_as_diff
     d = tempfile.mkdtemp(prefix="vf_c16_")
     try:
+        from annet.annlib.netdev.views.hardware import HardwareView
+        from annet import tabparser
+        from annet.vendors import registry_connector
+        from vf.props import c20
+        jobs = []
         for s in corpus.patch_samples():
             name, vk, before, after, diff, patch = s
             if before is None or after is None:
@@ -177,6 +182,16 @@ def run_files(spec, acc):
                 hw, old, new = corpus.sample_configs(s)
             except Exception:
                 continue
+            jobs.append((name, hw, before, after, old, new))
+            # the same pair for concrete models of the vendor: the rule templates branch on the hardware family, and the
+            # file workers must pick the rulebook of the model they were given
+            for model in EXTRA_MODELS.get(vk, []):
+                jobs.append((name, HardwareView(model, ""), before, after, old, new))
+        for j in c20.HAND + c20.NESTED:
+            h = HardwareView(j["model"], "")
+            fmt = registry_connector.get().match(h).make_formatter()
+            jobs.append(("hand:" + j["old"][:30], h, j["old"], j["new"], tabparser.parse_to_tree(j["old"], fmt.split), tabparser.parse_to_tree(j["new"], fmt.split)))
+        for name, hw, before, after, old, new in jobs:
             op, np_ = os.path.join(d, "old.cfg"), os.path.join(d, "new.cfg")
             with open(op, "w") as f:
                 f.write(before)
@@ -185,14 +200,30 @@ def run_files(spec, acc):
             args = types.SimpleNamespace(hw=hw, add_comments=False, indent="  ", show_rules=False, no_color=True, old=op, new=np_)
             w = {"files": True, "sample": name, "model": hw.model}
             try:
+                ddiff, dpatch = api._diff_and_patch(c01.Dev(hw), old, new, None, None, False)
+                derr = None
+            except Exception as e:
+                derr = type(e).__name__
+            try:
                 fp = list(api.file_patch_worker((op, np_), args))
                 fd = list(api.file_diff_worker((op, np_), args))
-                ddiff, dpatch = api._diff_and_patch(c01.Dev(hw), old, new, None, None, False)
+                ferr = None
             except Exception as e:
-                acc.violation("C16/file-worker-exception/%s" % type(e).__name__, "a file worker raised on a fixture pair", dict(w, error=repr(e)[:300]))
+                ferr = type(e).__name__
+                if derr is None:
+                    acc.violation("C16/file-worker-exception/%s" % type(e).__name__, "a file worker raised on a pair the device front end handles", dict(w, error=repr(e)[:300]))
+                    continue
+            if derr is not None:
+                # a pair outside this model's rulebook domain (e.g. a CE-only rule on an NE model): both front ends must refuse it alike
+                acc.count("file_workers_both_refuse")
+                if ferr != derr:
+                    acc.violation("C16/one-front-end-raises", "the device front end raises on this pair and the file front end does not (or raises something else)",
+                                  dict(w, device_error=derr, file_error=ferr))
                 continue
             acc.count("file_workers_compared")
-            acc.case(["files", name], nontrivial=True)
+            if hw.model not in corpus.STUB_HW.values():
+                acc.count("file_workers_concrete_model")
+            acc.case(["files", name, hw.model], nontrivial=True)
             exp_patch = api._format_patch_blocks(dpatch, hw, "  ")
             got_patch = fp[0][1] if fp else ""
             if got_patch != exp_patch:
